@@ -558,3 +558,16 @@ pub fn generate_c06(r: &mut Rng, tier: &str, emit: &mut dyn FnMut(String)) {
         emit(gen_history(r, &k));
     }
 }
+
+/// C10 at daemon level: announced services and queries that list their records as known
+/// answers with TTLs around half of the record's own (59 / 60 / 61 of 120, 2249 / 2250 / 2251 of
+/// 4500), with and without the cache-flush bit, in the owner's spelling or another letter case
+pub fn generate_c10(r: &mut Rng, tier: &str, emit: &mut dyn FnMut(String)) {
+    for _ in 0..count(tier, 400, 4000) {
+        let k = Knobs {
+            tag: "C10", topo: topo_of(r), steps: r.range(4, 10), w_register: 2, w_rereg: 0, w_unregister: 0, w_query: 10,
+            w_tiebreak: 0, w_conflict: 0, w_jump: 0, shutdown: false, jitter: None,
+        };
+        emit(gen_history(r, &k));
+    }
+}
